@@ -8,7 +8,7 @@ FRAGMENT = {
  'level_text': 'seeded exploration of broadcaster x viewer histories on one vbi_decoder: frames of 0-40 sliced lines (Teletext Level 1-3.5 pages, POP/GPOP/DRCS/MOT/MIP/BTT/AIT/MPT '
                'tables, EACEM trigger page, 8/30, caption channels 1-8, XDS of every class, ITV triggers, VPS, WSS, CPR-1204, random lines) through a faulty channel and with '
                'broken timestamps, interleaved at frame granularity with the read-side API (fetch at every level, export by every module with random options, region rendering '
-               'into exactly sized canvases, print, links, title, classification, search, channel switch, handler changes) and with API calls from inside event callbacks; '
+               'into exactly sized canvases, print, links, title, classification, search, channel switch, handler changes) and with API calls (the re-entrant subset, and handler registration changes) from inside event callbacks; a third of the Teletext stations transmit the complete TOP navigation set and links point at pages the station really transmits, so that titles, TOP labels and the TOP index are built from received data; '
                'real decoder under ASan+UBSan with live asserts, deterministic edge budget per call, self-deadlock detector, allocator accounting; sampling, not proof',
  'level_note': 'trusted: clang sanitizers, the edge budget as hang detector (2e9 edges per vbi_decode, 3e9 per vbi_search_next - two orders of magnitude above the observed maxima), '
                'the allocator hooks; no functional oracle. Growth bound: bytes held between two frames <= bytes after vbi_decoder_new + 400 kB + 6000 x (distinct (page,subcode) '
